@@ -149,6 +149,8 @@ def _case_st(fmt):
         zero_frac=st.sampled_from([0.0, 0.0, 0.3, 0.7]),
         tiny=st.lists(st.tuples(st.integers(0, 6), st.integers(0, 2), st.integers(0, len(TINY_VALUES) - 1)), max_size=3),
         kpts=st.lists(wbsys.kpoint_st(), min_size=2, max_size=2),
+        # the system that is written was obtained from a spinless one by System_R.double_spin()
+        double=st.sampled_from([False, False, False, True]),
     )
     if fmt == "npz":
         _g = st.tuples(st.sampled_from(range(8)), st.sampled_from([False, False, True]))
@@ -203,6 +205,18 @@ def build_model(case):
                 mask = m2
             model.mats[key] = X * mask.reshape(mask.shape + (1,) * (X.ndim - 3))
     return model
+
+
+def doubled_model(model):
+    """what System_R.double_spin() documents: every orbital twice (2i, 2i+1), spin-diagonal matrices, same centres"""
+    nw = model.nw
+    mats = {}
+    for k, X in model.mats.items():
+        Y = np.zeros((X.shape[0], 2 * nw, 2 * nw) + X.shape[3:], dtype=X.dtype)
+        Y[:, 0::2, 0::2] = X
+        Y[:, 1::2, 1::2] = X
+        mats[k] = Y
+    return wbsys.Model(model.lattice.copy(), np.repeat(model.wcc_red, 2, axis=0), model.iRvec.copy(), mats)
 
 
 def by_R(iRvec, X):
@@ -318,7 +332,7 @@ def compare_physics(case, model, s_orig, s_new, what, eps, dt):
 def common_labels(case, model):
     nw = model.nw
     return [f"nw={nw}", "odd" if nw % 2 else "even", "closed" if case["closed"] else "not-closed",
-            "bigR" if case.get("bigR") is not None else None, "zeros" if case["zero_frac"] > 0 else None,
+            "bigR" if case.get("bigR") is not None else None, "doubled" if case.get("double") and model.nw % 2 == 0 and not any(k.startswith("S") for k in model.mats) else None, "zeros" if case["zero_frac"] > 0 else None,
             "tiny-centres" if any(i < nw for i, _, _ in case["tiny"]) else None, case["model"]["ckind"],
             f"nR={min(len(model.iRvec), 9)}" + ("+" if len(model.iRvec) > 9 else "")]
 
@@ -334,6 +348,9 @@ def check_npz(case):
     L = model.lattice
     gens = group_generators(case["model"]["lat"], ([case["gen0"]] if case["use_gen0"] else []) + list(case["gens"]), L)
     s = wbsys.to_system(model, pointgroup_gen=[PointSymmetry(R.copy(), TR=tr) for R, tr in gens] if gens else None)
+    if case.get("double") and not any(k.startswith("S") for k in model.mats):   # documented precondition: spinless
+        s.double_spin()
+        model = doubled_model(model)
     own = own_closure(gens)
     if s.pointgroup.size != len(own):
         # not a file round-trip issue (C09 territory) - would make the oracle below meaningless
@@ -412,6 +429,9 @@ def check_tb(case):
     model = build_model(case)
     L = model.lattice
     s = wbsys.to_system(model)
+    if case.get("double"):
+        s.double_spin()
+        model = doubled_model(model)
     has_AA = "AA" in model.mats
     mode = case["mode"]
     if not has_AA:
@@ -476,6 +496,9 @@ def check_hr(case):
     model = build_model(case)
     L = model.lattice
     s = wbsys.to_system(model)
+    if case.get("double"):
+        s.double_spin()
+        model = doubled_model(model)
     wcc = model.wcc_red @ L
     with scratch_dir() as d:
         seed = os.path.join(d, "model")
